@@ -631,11 +631,14 @@ class LiteralUnmarshaller(AbstractUnmarshaller[LiteralT], tp.Generic[LiteralT]):
         self.values = inspection.args(t, evaluate=True)
 
     def __call__(self, val: tp.Any) -> LiteralT:
-        if val in self.values:
-            return val
+        # Return the declared literal, not whatever compared equal to it (e.g., `True` for `1`).
+        for literal in self.values:
+            if literal == val:
+                return literal
         decoded = serdes.load(val)
-        if decoded in self.values:
-            return decoded  # type: ignore[return-value]
+        for literal in self.values:
+            if literal == decoded:
+                return literal
 
         raise ValueError(f"{decoded!r} is not one of {self.values!r}")
 
